@@ -1,7 +1,7 @@
 (** C15: a property of the shell state that every oracle step preserves is preserved by the whole
     run_exp family, hence by run_lines; instance: exit_on_error stays on through function calls
     and `source` (Model/ShellScript.v). *)
-From Cicada Require Import Base.Chars Base.Peg Gen.LocustGrammar Model.Script Model.ScriptAst Model.Args Model.ShellScript
+From Cicada Require Import Base.Chars Base.Peg Gen.LocustGrammar Model.Script Model.ScriptAst Model.Args Model.ShellScript Model.Cmds Model.ListExec Model.CondLine
   Proofs.ScriptProofs Proofs.SetEProofs.
 From Coq Require Import ZArith Lia.
 Local Open Scope N_scope.
@@ -15,20 +15,21 @@ Variable n : nat.
 
 Definition flag_on (w : shs) : Prop := s_eoe w = true.
 
-Lemma exec_line_S f w line :
-  exec_line ext file_text n (S f) w line =
+Notation EL f := (run_line_of shs (exec_pipe ext file_text n f)).
+
+Lemma exec_pipe_S f w line :
+  exec_pipe ext file_text n (S f) w line =
   let '(cmd, rest) := first_word line in
-  if str_eqb line s_set_e then (mk_shs true (s_funcs w) (s_log w), [0%Z])
-  else if str_eqb cmd s_source then
-    let '(w1, st) := run_script ext file_text n f w (trim rest) in (w1, [st])
+  if str_eqb line s_set_e then (mk_shs true (s_funcs w) (s_log w), 0%Z)
+  else if str_eqb cmd s_source then run_script ext file_text n f w (trim rest)
   else
     match get_func cmd (s_funcs w) with
     | Some body =>
-        match run_lines shs (exec_line ext file_text n f) no_words no_setvar s_eoe n body w with
-        | Some (Done w1 crs _ _) => (w1, [func_call_status crs])
-        | _ => (w, [0%Z])
+        match run_lines shs (EL f) no_words no_setvar s_eoe n body w with
+        | Some (Done w1 crs _ _) => (w1, func_call_status crs)
+        | _ => (w, 0%Z)
         end
-    | None => (mk_shs (s_eoe w) (s_funcs w) (s_log w ++ [line]), [ext line])
+    | None => (mk_shs (s_eoe w) (s_funcs w) (s_log w ++ [line]), ext line)
     end.
 Proof. reflexivity. Qed.
 
@@ -40,7 +41,7 @@ Lemma run_script_S f w path :
       let '(defs, text_new) := function_table text in
       let w0 := mk_shs (s_eoe w) (set_funcs defs (s_funcs w)) (s_log w) in
       let '(w1, crs) :=
-        match run_lines shs (exec_line ext file_text n f) no_words no_setvar s_eoe n text_new w0 with
+        match run_lines shs (EL f) no_words no_setvar s_eoe n text_new w0 with
         | Some (Done w1 crs _ _) => (w1, crs)
         | _ => (w0, [])
         end in
@@ -48,29 +49,55 @@ Lemma run_script_S f w path :
   end.
 Proof. reflexivity. Qed.
 
-Lemma exec_pres : forall fuel,
-  (forall w l, flag_on w -> flag_on (fst (exec_line ext file_text n fuel w l))) /\
+(** a property of the world preserved by the runner of one pipeline is preserved by the and-or loop *)
+Lemma run_line_of_pres (P : shs -> Prop) (run : shs -> str -> shs * Z) :
+  (forall w p, P w -> P (fst (run w p))) -> forall w line, P w -> P (fst (run_line_of shs run w line)).
+Proof.
+  intros Hr w line Hw. unfold run_line_of, run_command_line, run_tokens. cbn [fst].
+  assert (G : forall toks s, P (e_w shs s) -> P (e_w shs (fold_left (exec_token shs run) toks s))).
+  { induction toks as [|t toks IH]; intros s Hs; [exact Hs|]. cbn [fold_left]. apply IH.
+    unfold exec_token. destruct (op_of t); try exact Hs.
+    destruct (e_sep shs s).
+    - pose proof (Hr (e_w shs s) t Hs) as Hk. destruct (run (e_w shs s) t). exact Hk.
+    - destruct (Z.eqb (e_status shs s) 0); [|exact Hs].
+      pose proof (Hr (e_w shs s) t Hs) as Hk. destruct (run (e_w shs s) t). exact Hk.
+    - destruct (Z.eqb (e_status shs s) 0); [exact Hs|].
+      pose proof (Hr (e_w shs s) t Hs) as Hk. destruct (run (e_w shs s) t). exact Hk.
+    - pose proof (Hr (e_w shs s) t Hs) as Hk. destruct (run (e_w shs s) t). exact Hk. }
+  apply G. exact Hw.
+Qed.
+
+Lemma pipe_pres : forall fuel,
+  (forall w l, flag_on w -> flag_on (fst (exec_pipe ext file_text n fuel w l))) /\
   (forall w p, flag_on w -> flag_on (fst (run_script ext file_text n fuel w p))).
 Proof.
   induction fuel as [|f [IHe IHs]].
   - split; intros; assumption.
-  - split.
-    + intros w l Hw. rewrite exec_line_S.
+  - assert (IHl : forall w l, flag_on w -> flag_on (fst (EL f w l))) by (apply run_line_of_pres, IHe).
+    split.
+    + intros w l Hw. rewrite exec_pipe_S.
       destruct (first_word l) as [cmd rest].
       destruct (str_eqb l s_set_e); [reflexivity|].
-      destruct (str_eqb cmd s_source).
-      { pose proof (IHs w (trim rest) Hw) as Hk. destruct (run_script ext file_text n f w (trim rest)) as [w1 st]. exact Hk. }
+      destruct (str_eqb cmd s_source); [apply IHs, Hw|].
       destruct (get_func cmd (s_funcs w)) as [body|]; [|exact Hw].
-      pose proof (run_lines_pres shs (exec_line ext file_text n f) no_words no_setvar s_eoe n flag_on
-                    IHe (fun w _ H => H) (fun w _ _ H => H) body w Hw) as Hk.
-      destruct (run_lines shs (exec_line ext file_text n f) no_words no_setvar s_eoe n body w) as [[w1 crs c b| |]|];
+      pose proof (run_lines_pres shs (EL f) no_words no_setvar s_eoe n flag_on
+                    IHl (fun w _ H => H) (fun w _ _ H => H) body w Hw) as Hk.
+      destruct (run_lines shs (EL f) no_words no_setvar s_eoe n body w) as [[w1 crs c b| |]|];
         try exact Hw. exact Hk.
     + intros w p Hw. rewrite run_script_S.
       destruct (file_text p) as [text|]; [|exact Hw].
       destruct (function_table text) as [defs text_new].
       cbv zeta.
-      destruct (run_lines shs (exec_line ext file_text n f) no_words no_setvar s_eoe n text_new
+      destruct (run_lines shs (EL f) no_words no_setvar s_eoe n text_new
                   (mk_shs (s_eoe w) (set_funcs defs (s_funcs w)) (s_log w))) as [[w1 crs c b| |]|]; exact Hw.
+Qed.
+
+Lemma exec_pres : forall fuel,
+  (forall w l, flag_on w -> flag_on (fst (exec_line ext file_text n fuel w l))) /\
+  (forall w p, flag_on w -> flag_on (fst (run_script ext file_text n fuel w p))).
+Proof.
+  intro fuel. split; [|apply (proj2 (pipe_pres fuel))].
+  unfold exec_line. apply run_line_of_pres, (proj1 (pipe_pres fuel)).
 Qed.
 
 (** C15_sete over flat scripts whose lines are external commands, function calls (bodies of any
